@@ -78,7 +78,7 @@ def run_c12(v):
         "not asserted because the README is silent: order and truncation among terms buckets with EQUAL counts, percentile interpolation (bounds and monotonicity only), values equal to a range/hard bound (bounds are generated between values), sub-aggregations of empty histogram buckets, empty buckets outside extended_bounds, metrics over zero values (count only)",
         "shard_size is only generated far above the number of keys (its truncation is approximate by design)",
         "top_hits: membership, order by the sort plan and total are asserted; ties by (segment, doc) are layout dependent by definition and excluded from the layout-to-layout comparison",
-        "date_range / date_histogram, significant_terms, sampling and pipeline aggregations are not generated (date_histogram fixed intervals round up in the code and in its own test suite; not judged)",
+        "date_range is generated with numeric-string bounds, date_histogram with fixed intervals of whole milliseconds over the i64 fields (offset, extended_bounds, min_doc_count, missing); whether a fixed interval rounds down or up is not documented (the code and its own test suite round UP), so either reading is accepted, consistently per response; calendar intervals, RFC3339 strings, significant_terms, sampling and pipeline aggregations are not generated",
     ]
 
 
